@@ -876,10 +876,13 @@ impl World {
         }
         // ledger
         s.push_str(" bal=");
-        s.push_str(&LEDGER_IDS.iter().map(|id| format!("{}:{}", id, self.balance_id(*id))).collect::<Vec<_>>().join(";"));
+        // (ids that name no account of this deployment — e.g. a second vAMM that was not deployed — would all
+        // resolve to the catch-all address of id 0 and are left out)
+        let present: Vec<u64> = LEDGER_IDS.iter().cloned().filter(|id| *id == 0 || self.names.contains_key(id)).collect();
+        s.push_str(&present.iter().map(|id| format!("{}:{}", id, self.balance_id(*id))).collect::<Vec<_>>().join(";"));
         if self.token.is_some() {
             s.push_str(" allow=");
-            s.push_str(&LEDGER_IDS.iter().map(|id| format!("{}:{}", id, self.allowance(&self.addr(*id)))).collect::<Vec<_>>().join(";"));
+            s.push_str(&present.iter().map(|id| format!("{}:{}", id, self.allowance(&self.addr(*id)))).collect::<Vec<_>>().join(";"));
         } else {
             s.push_str(" allow=none");
         }
